@@ -9,7 +9,7 @@ open Genshi Genshi.Incl Genshi.Sexp
         (inline: prepared streams as the code leaves them; inline-marked: with the cost markers of the exact-fuel theorem)
         files = ( dir … )   dir = ( ( name kind body ) … )   body = N (ill-formed) | ( node … )
         node  = ( text s ) ( var x ) ( elem tag ( node … ) ) ( if ( var|not x ) ( node … ) )
-                ( for x xs ( node … ) ) ( def m ( node … ) ) ( call m ) ( match tag ( node … ) )
+                ( for x xs ( node … ) ) ( def m ( node … ) ) ( call m ) ( match tag ( node … ) ) ( content )
                 ( include href cls fb )      href = ( fix s ) | ( dyn ( lit s ) | ( var x ) … )
                                              cls = markup|text    fb = N | ( node … )
         data  = ( ( name value ) … )   value = ( v str ) | ( l value … )
@@ -47,6 +47,7 @@ partial def node? (pos : Name) : Sexp → Option Node
   | .list [.atom "text", .str s] => some (.text s)
   | .list [.atom "var", .str x] => some (.var x)
   | .list [.atom "call", .str m] => some (.call m)
+  | .list [.atom "content"] => some .select
   | .list [.atom "elem", .str t, .list b] => (nodes? pos b).map (.elem t)
   | .list [.atom "if", c, .list b] => do let c ← cond? c; let b ← nodes? pos b; pure (.cond c b)
   | .list [.atom "for", .str x, .str xs, .list b] => (nodes? pos b).map (.loop x xs)
